@@ -207,6 +207,14 @@ def decode_task(ck, task):
         ck.refuted("G-REFUSE", fn, cons, f"accepted: {m}", witness=m)
     else:
         ck.unknown("G-REFUSE", fn, cons, str(m))
+    # conversely, a too-short refusal is taken only for a buffer shorter than the declared PDU or a declared length that
+    # cannot hold the mandatory fields (a PDU with empty file data is well-formed)
+    if seg_meta:
+        min_need = binop("+", binop("&", T("idx", data, C(H), ty="int"), C(0x3F)), C(need))
+    else:
+        min_need = C(need)
+    D.check_short_refusals_justified(ck, it, fn, "data", N, f"the declared PDU, or declaring less than the mandatory fields need ({tag})",
+                                     also=binop("<", N, min_need), exc_suffix=("BytesTooShortError", "ValueError"), only_func="FileDataPdu.unpack")
     # reported length of the decoded object equals the declared length
     pl = simp(read_path(it, env, dec, "packet_len"))
     R.check_lin_equal(ck, pl, Nl, fn, f"decoded packet_len == declared length ({tag})")
